@@ -30,7 +30,9 @@ EXTRA = {"C08-m1": ["C13"], "C06-m1": ["C07"], "C02-m2": ["C06"], "C13-m2": ["C1
          "C01-m7": ["C13", "C15"], "C01-m8": ["C03", "C10"], "C03-m7": ["C01", "C10"], "C03-m8": ["C10"], "C05-m7": ["C19"],
          "C05-m8": ["C11"], "C08-m7": ["C15"], "C08-m8": ["C15"], "C09-m7": ["C01"], "C09-m8": ["C08"], "C10-m7": ["C15"],
          "C10-m8": ["C15"], "C11-m7": ["C05"], "C13-m7": ["C14"], "C13-m8": ["C12"], "C14-m7": ["C13"], "C14-m8": ["C13"],
-         "C15-m8": ["C13"], "C16-m7": ["C17"], "C16-m8": ["C17"]}
+         "C15-m8": ["C13"], "C16-m7": ["C17"], "C16-m8": ["C17"],
+         "C02-m9": ["C03"], "C02-m10": ["C09"], "C04-m9": ["C12"], "C04-m10": ["C03"], "C06-m9": ["C07"], "C06-m10": ["C07"],
+         "C12-m9": ["C13"], "C12-m10": ["C05"], "C19-m10": ["C04"], "C20-m10": ["C13"], "C07-m9": ["C06"], "C07-m10": ["C06"]}
 
 
 def sh(cmd, **kw):
